@@ -54,6 +54,19 @@ def finite(o):
     return o is None or bool(np.all(np.isfinite(np.array(o['v'], dtype=float))))
 
 
+def obs_finite(obs):
+    """all numbers in a list of script observations are finite"""
+    for o in obs:
+        for x in o[1:]:
+            if isinstance(x, dict):
+                if not finite(x):
+                    return False
+            elif isinstance(x, list):
+                if not np.all(np.isfinite(np.array(x, dtype=float))):
+                    return False
+    return True
+
+
 # ---- helpers ------------------------------------------------------------------------------------
 
 def _must_not_run(*a, **k):
@@ -412,6 +425,8 @@ class C12(PropCheck):
                         obs.append(['add', n, mean, m2, np.atleast_1d(ad.state['scale']).astype(float).tolist()])
                     except ValueError:
                         obs.append(['err'])
+                    except Exception as e:
+                        obs.append(['crash', 'add_data: %s: %s' % (type(e).__name__, e)])
                 elif op[0] == 'update':
                     try:
                         ad.update_distance()
@@ -420,6 +435,8 @@ class C12(PropCheck):
                                     self.store_zero(ad) and len(ad.state['w']) == len(ad.state['distance_functions'])])
                     except KeyError:
                         obs.append(['err'])
+                    except Exception as e:
+                        obs.append(['crash', 'update_distance: %s: %s' % (type(e).__name__, e)])
                 elif op[0] == 'init':
                     ad.init_adaptation_round()
                     obs.append(['init', self.store_zero(ad)])
@@ -430,6 +447,8 @@ class C12(PropCheck):
                         obs.append(['gen', enc(ad.generate(M, with_values=vals))])
                     except ValueError:
                         obs.append(['gen', None])
+                    except Exception as e:
+                        obs.append(['crash', 'generate: %s: %s' % (type(e).__name__, e)])
         return dict(obs=obs)
 
     def impl_rejection(self, case):
@@ -486,13 +505,23 @@ class C12(PropCheck):
             for o in out['obs']:
                 if o[0] == 'sorted' and not o[-1]:
                     fails.append(('rejection_rows', 'a returned summary row is not one of the simulated rows'))
-        if case['kind'] == 'adaptive' and case.get('dataset') and case['bad'] is None:
+        if case['kind'] == 'adaptive':
+            for o in out['obs']:
+                if o[0] == 'crash':
+                    fails.append(('crash', 'a call on the AdaptiveDistance node raised: ' + o[1].split(':')[0] + ': ' + o[1].split(':')[1]))
+                    break
+        if case['kind'] in ('adaptive', 'rejection') and case.get('bad') != 'degenerate' and not obs_finite(out['obs']):
+            fails.append(('nonfinite', 'non-finite state or distance although every column of every round has positive variance'))
+        if case['kind'] == 'dist' and not finite(out['out']):
+            fails.append(('nonfinite', 'non-finite distance for finite inputs'))
+        if case['kind'] == 'adaptive' and case.get('dataset') and case['bad'] is None and obs_finite(out['obs']):
             # every composition of the same data gives the same scale (relative 1e-9) as the first one seen
             last_add = [o for o in out['obs'] if o[0] == 'add'][-1]
             ref = self._part_ref.setdefault(case['dataset'], last_add)
             for a, b in zip(ref[4], last_add[4]):
                 if abs(a - b) > 1e-9 * (abs(a) + abs(b)):
-                    fails.append(('partition_scale', 'scale %r differs from %r of another split of the same data' % (b, a)))
+                    fails.append(('partition_scale', 'scale differs (rel > 1e-9) from the scale obtained with another split of the same data'))
+                    break
         return fails
 
     def classify(self, case, out, clause):
@@ -590,9 +619,8 @@ class C12(PropCheck):
             if case['bad'] == 'degenerate':
                 return None
             ops, obs, observed = case['ops'], out['obs'], case['observed']
-        for o in obs:
-            if o[0] == 'gen' and not finite(o[1]):
-                return None
+        if not obs_finite(obs) or any(o[0] == 'crash' for o in obs):
+            return None
         return ('(CA {| c_observed := %s; c_ops := %s; c_impl := %s |})'
                 % (clist([carr(x) for x in observed]), clist([self.cop(o) for o in ops]), clist([self.ciobs(o) for o in obs])))
 
